@@ -289,6 +289,10 @@ def generate(seed, ntypes, nvalues):
         # other attributes / doc comments may stand before the storage request
         pre = ["", "/// documented component\n", "#[allow(dead_code)]\n", "#[repr(C)]\n"][i % 4]
         comps.append({"tid": 92000000 + i, "name": name, "spec": {"base": base, "inner": inner}, "attr": pre + attr, "zst": zst})
+    # field-less components without a storage request still get the default storage
+    comps.append({"tid": 92000100, "name": "CU0", "spec": {"base": "", "inner": ""}, "attr": "", "zst": True})
+    comps.append({"tid": 92000101, "name": "CU1", "spec": {"base": "", "inner": ""}, "attr": "", "zst": "braces"})
+    comps.append({"tid": 92000102, "name": "CU2", "spec": {"base": "VecStorage", "inner": ""}, "attr": "#[storage(VecStorage)]", "zst": True})
     return g.types, items, comps
 
 
@@ -341,7 +345,7 @@ fn short(s: &str) -> String {
     for t in types:
         src.append(rust_typedef(t))
     for c in comps:
-        body = ";" if c["zst"] else "(u32);"
+        body = " {}" if c["zst"] == "braces" else ";" if c["zst"] else "(u32);"
         src.append("#[derive(Component, Default)]\n%s\npub struct %s%s" % (c["attr"], c["name"], body))
     src.append("""
 fn mk(id: u64) -> SM {
